@@ -1,7 +1,7 @@
 /-
   Driver for the exception model (C07).  One request per line:
 
-    single <seqOut 0|1> <unserErr exc> <ctor> <kind p|c|g|s|i> <tb val> <step>
+    single <maxRetries> <seqOut 0|1> <unserErr exc> <ctor> <kind p|c|g|s|i> <tb val> <step>     (reply ends with tries=<n>)
     batch  <seqOut 0|1> <unserErr exc> <ctor> <batchFallback 0|1> <tb val> <step>*
     decode <ctor> <val>                      (recreate_classes of a literal: exercises dict_to_class)
 
@@ -194,11 +194,18 @@ def parseKind (s : String) : Option CallKind :=
   | _ => none
 
 def step : List String → String
-  | ["single", seq, unser, ctor, kind, tb, st] =>
-    match full pExc unser, parseCtor ctor, parseKind kind, full pVal tb, full pStep st with
-    | some ue, some ct, some k, some t, some s =>
-      showResult (clientCall genServerEnv (genClientEnv ct) (treeCodec (seq == "1") ue) drvRender k s t)
-    | _, _, _, _, _ => "bad-op"
+  | ["single", retries, seq, unser, ctor, kind, tb, st] =>
+    match retries.toNat?, full pExc unser, parseCtor ctor, parseKind kind, full pVal tb, full pStep st with
+    | some m, some ue, some ct, some k, some t, some s =>
+      let K := genClientEnv ct
+      let one := clientCall genServerEnv K (treeCodec (seq == "1") ue) drvRender k s t
+      match k with
+      | .plain _ =>     -- a method call: through _RemoteMethod.__call__ with _pyroMaxRetries = m
+        match remoteMethod K (retryBound m) m (fun _ => one) with
+        | (some r, n) => showResult r ++ s!" tries={n}"
+        | (none, n) => s!"returned-none tries={n}"
+      | _ => showResult one ++ " tries=1"
+    | _, _, _, _, _, _ => "bad-op"
   | "batch" :: seq :: unser :: ctor :: bf :: tb :: steps =>
     match full pExc unser, parseCtor ctor, full pVal tb, steps.mapM (full pStep) with
     | some ue, some ct, some t, some ss =>
